@@ -272,12 +272,18 @@ func runL2Case(c L2Case, dumpOnly bool) (o L2Obs) {
 		o.Kind, o.Unsupported = "skipped", err.Error()
 		if _, ok := err.(errUnsupported); !ok {
 			o.Unsupported = "load: " + err.Error()
+			return
 		}
-		return
+		// outside the model (e.g. identifiers that are not ASCII): the implementation is still run and
+		// the oracles still apply to what it writes; only the comparison with the model is skipped
+		if dumpOnly {
+			return
+		}
+	} else {
+		o.Input = in
+		o.Sigs = lastSigs
+		o.SpecFiles = lastSpecFiles
 	}
-	o.Input = in
-	o.Sigs = lastSigs
-	o.SpecFiles = lastSpecFiles
 	o.Config = fmt.Sprintf("(mkConfig %s %s %s %s)", coqStr(c.Pkg), coqBool(c.Stub), coqBool(c.Skip), coqBool(c.Resets))
 	o.Args = coqStrList(c.Args)
 	if dumpOnly {
